@@ -1,5 +1,5 @@
 """C16 - statistics are true bounds; pruning never discards matches."""
-from ..canon import Canon, subtrees, show
+from ..canon import Canon, fold, subtrees, show
 from ..extract import AnalysisBroken
 from ..facts import src
 from ..rules.flow import find_path_avoiding, describe_path
@@ -353,27 +353,64 @@ def run(ctx):
                     ctx.ob("R6.bounded", key, P.where(c), "memcpy of %d bytes into %s[%d]" % (n_.cv, mem[0].name, cap),
                            n_.cv <= cap)
                     continue
-                # dominated by a comparison of the same length with sizeof(dest) that exits/continues
+                # some comparison of this length with the capacity decides an edge, that block dominates the
+                # copy, and the copy cannot be reached (within the iteration) along the "too long" edge
                 ln = src(n_)
+                lnd = n_.strip_casts().get("d") if n_.strip_casts().k == "DeclRefExpr" else None
+                cz_ = Canon(fn)
                 okb = False
-                clamped = False
-                for n in fn.body.walk():
-                    if n.k == "IfStmt":
-                        cnd = [x for x in n.c if x is not None][0]
-                        if ln in src(cnd) and any(x.k == "UnaryExprOrTypeTraitExpr" or (x.cv is not None and cap is not None and x.cv == cap)
-                                                  for x in cnd.walk()) and ">" in src(cnd):
-                            first = min((x for x in n.walk() if x.i in fn.cfg.where()), key=lambda x: x.i)
-                            if fn.cfg.node_dominates(first, c):
-                                okb = True
-                                if _too_long_reaches(fn, cnd, ln, c):
-                                    clamped = True
+                reach = True
+                for B in fn.cfg.blocks.values():
+                    leaf = B.cond
+                    if leaf is None or leaf.k != "BinaryOperator" or leaf.op not in (">", ">=", "<", "<="):
+                        continue
+                    if len([s_ for s_ in B.succs if s_ is not None]) != 2:
+                        continue
+                    sides = [leaf.c[0].strip_casts(), leaf.c[1].strip_casts()]
+                    is_len = [(x.k == "DeclRefExpr" and lnd is not None and x.get("d") == lnd) or src(x) == ln for x in sides]
+                    if is_len[0] == is_len[1]:
+                        continue
+                    other = leaf.c[1] if is_len[0] else leaf.c[0]
+                    k_ = other.cv
+                    if k_ is None:
+                        t_ = fold(cz_(other))
+                        k_ = t_[1] if isinstance(t_, tuple) and t_[0] == "int" else None
+                    if k_ is None or cap is None:
+                        continue
+                    op_ = leaf.op if is_len[0] else {">": "<", "<": ">", ">=": "<=", "<=": ">="}[leaf.op]
+                    # the edge on which `len` may exceed the capacity
+                    if op_ == ">" and k_ <= cap or op_ == ">=" and k_ <= cap + 1:
+                        long_succ = 0
+                    elif op_ == "<=" and k_ <= cap or op_ == "<" and k_ <= cap + 1:
+                        long_succ = 1
+                    else:
+                        continue
+                    w_ = fn.cfg.where()
+                    if c.i not in w_:
+                        continue
+                    cb = w_[c.i][0]
+                    dom = fn.cfg.dominators()
+                    if not (cb in dom and B.id in dom[cb]) and cb != B.id:
+                        continue
+                    okb = True
+                    stop_ids = set()
+                    for a_ in c.ancestors():
+                        if a_.k in ("ForStmt", "WhileStmt", "DoStmt"):
+                            for part in a_.c[:-1]:
+                                if part is not None:
+                                    stop_ids |= set(y.i for y in part.walk())
+                            break
+                    from ..rules.flow import find_path_avoiding
+                    pth = find_path_avoiding(fn.cfg, lambda e: e.i in stop_ids, lambda e: e is c, None, (B.succs[long_succ], 0))
+                    if pth is None:
+                        reach = False
                 ctx.ob("R6.bounded", key, P.where(c),
-                       "memcpy of `%s` bytes into the %s-byte %s array is dominated by a size test" % (ln, cap, mem[0].name), okb)
-                if "max" in mem[0].name.split("_"):
-                    ctx.ob("R6.bounded", key + "|whole", P.where(c),
-                           "a value too long for the %s storage is rejected (bounds dropped / iteration left), never stored as a "
-                           "truncated prefix: a prefix is not an upper bound" % mem[0].name, not clamped,
-                           "the size test falls through to the copy (clamp)" if clamped else "")
+                       "memcpy of `%s` bytes into the %s-byte %s array: a comparison of that length with the capacity "
+                       "dominates the copy, and the copy is unreachable within the iteration on its too-long edge (rejected, "
+                       "never truncated - required for max: a prefix is not an upper bound)" % (ln, cap, mem[0].name),
+                       okb and (not reach or "max" not in mem[0].name.split("_")),
+                       "" if okb and not reach else ("no dominating comparison with a constant <= %s" % cap if not okb
+                                                     else "the copy is reachable on the too-long edge (clamp / fall-through)"))
     ctx.floor("C16 min/max memcpy sites", nmc, 10)
 
     # ---- every value participates in the min/max decision or invalidates the bounds
